@@ -148,10 +148,12 @@ func (e *jsonEncDriver[T]) EncodeTime(t time.Time) {
 	}
 	switch e.timeFmt {
 	case jsonTimeFmtStringLayout:
-		e.b[0] = '"'
-		b := t.AppendFormat(e.b[1:1], e.timeFmtLayout)
-		e.b[len(b)+1] = '"'
-		e.w.writeb(e.b[:len(b)+2])
+		// append to the scratch buffer (do not index into it: a configured layout
+		// may format to more than len(e.b)-2 bytes, and append then moves to a new array)
+		b := append(e.b[:0], '"')
+		b = t.AppendFormat(b, e.timeFmtLayout)
+		b = append(b, '"')
+		e.w.writeb(b)
 	case jsonTimeFmtUnix:
 		e.encodeIntAsUint(t.Unix(), false)
 	case jsonTimeFmtUnixMilli:
